@@ -1492,6 +1492,65 @@ def pred_kraus_atol_mismatch(case):
 
 
 # ============================================================================= facets
+# ============================================================================= facet: expansion (matrix <-> coefficients helpers)
+@st.composite
+def expansion_case(draw, tier):
+    cfg = draw(cfg_st(gen_shapes(tier), kinds=TARGET_KINDS))
+    d = gen.dim_of(cfg["shape"])
+    return {"f": "expansion", "cfg": cfg, "form": draw(st.sampled_from(["sparse", "dense", "comp_row", "comp_col"])),
+            "m": draw(gen.raw(2 * d * d)), "n": draw(gen.raw(2 * d * d)),
+            "a": [draw(st.floats(-2, 2, allow_nan=False)), draw(st.floats(-2, 2, allow_nan=False))]}
+
+
+def check_expansion(case, ctx):
+    """calc_matrix_expansion_coefficient / calc_hermitian_matrix_expansion_coefficient_hermitian_basis /
+    calc_mat_from_coefficient_basis: c_i = Tr[B_i^dagger M], M = sum_i c_i B_i, complex-linear in M."""
+    from quara.objects import matrix_basis as mb
+
+    env = Env(case["cfg"], ctx)
+    d = env.d
+    form = case["form"]
+    ctx.label(cfg_key(case["cfg"]), "basis_form:" + form)
+    if form == "sparse":
+        basis, B = env.c_sys.basis(), env.B
+    elif form == "dense":
+        basis, B = mb.MatrixBasis([np.array(b) for b in env.basis]), env.B
+    else:
+        mode = "row_major" if form == "comp_row" else "column_major"
+        basis, B = env.c_sys.comp_basis(mode=mode), comp_arr(d, mode)
+    m = (np.asarray(case["m"][: d * d]) + 1j * np.asarray(case["m"][d * d:])).reshape(d, d)
+    n = (np.asarray(case["n"][: d * d]) + 1j * np.asarray(case["n"][d * d:])).reshape(d, d)
+    a = complex(case["a"][0], case["a"][1])
+    tol = env.tol(1.0 + abs(a))
+
+    def coeff_ref(x):
+        return np.array([np.trace(b.conj().T @ x) for b in B])
+
+    ok, c = guard(ctx, "calc_matrix_expansion_coefficient", lambda: mb.calc_matrix_expansion_coefficient(m.copy(), basis))
+    if ok:
+        cmp(ctx, "calc_matrix_expansion_coefficient@definition", c, coeff_ref(m), tol)
+        ok2, back = guard(ctx, "calc_mat_from_coefficient_basis", lambda: mb.calc_mat_from_coefficient_basis(np.asarray(c), basis))
+        if ok2:
+            cmp(ctx, "calc_mat_from_coefficient_basis@round_trip", back, m, tol)
+        ok3, c2 = guard(ctx, "calc_matrix_expansion_coefficient", lambda: mb.calc_matrix_expansion_coefficient(a * m + n, basis))
+        ok4, cn = guard(ctx, "calc_matrix_expansion_coefficient", lambda: mb.calc_matrix_expansion_coefficient(n.copy(), basis))
+        if ok3 and ok4:
+            cmp(ctx, "calc_matrix_expansion_coefficient@complex_linear", c2, a * np.asarray(c) + np.asarray(cn), 4 * tol)
+    vec = coeff_ref(n)  # arbitrary complex coefficients
+    ok, mat = guard(ctx, "calc_mat_from_coefficient_basis", lambda: mb.calc_mat_from_coefficient_basis(vec.copy(), basis))
+    if ok:
+        cmp(ctx, "calc_mat_from_coefficient_basis@definition", mat, np.tensordot(vec, B, axes=(0, 0)), tol)
+    herm_basis = bool(np.max(np.abs(B - np.conj(np.swapaxes(B, 1, 2)))) < 1e-12)
+    if herm_basis:
+        h = rm.herm(m)
+        ok, ch = guard(ctx, "calc_hermitian_matrix_expansion_coefficient_hermitian_basis",
+                       lambda: mb.calc_hermitian_matrix_expansion_coefficient_hermitian_basis(h.copy(), basis))
+        if ok:
+            ctx.check(np.asarray(ch).dtype.kind == "f", "calc_hermitian_matrix_expansion_coefficient_hermitian_basis@real_dtype", str(np.asarray(ch).dtype))
+            cmp(ctx, "calc_hermitian_matrix_expansion_coefficient_hermitian_basis@definition", ch, np.real(coeff_ref(h)), env.tol(1.0, True))
+    ctx.nontrivial((not herm_basis) or env.rotated() or float(np.max(np.abs(m - m.conj().T))) > 1e-3)
+
+
 FACETS = {
     "basis_sweep": {
         "kind": "enumeration",
@@ -1514,6 +1573,13 @@ FACETS = {
         "check": check_agreement,
         "budget": {"quick": {"examples": 640, "shards": 8}, "thorough": {"examples": 10000, "shards": 16}},
         "nontrivial": "object with imaginary/antisymmetric component in the computational basis, or rotated basis",
+        "min_nontrivial": 30,
+    },
+    "expansion": {
+        "strategy": expansion_case,
+        "check": check_expansion,
+        "budget": {"quick": {"examples": 480, "shards": 4}, "thorough": {"examples": 8000, "shards": 16}},
+        "nontrivial": "non-Hermitian matrix, or a non-Hermitian (computational) / rotated basis",
         "min_nontrivial": 30,
     },
     "round_trip": {
